@@ -139,7 +139,15 @@ SliceOk(sl) == /\ sl.lo.k \in {"none", "int"} /\ sl.hi.k \in {"none", "int"} /\ 
 \* cur[arg] including slices; may allocate
 GetItemX(heap, cur, arg) ==
   IF arg.k # "slice" THEN
-    (IF IsRef(cur) /\ heap[cur.a].cls = "baddict"
+    (IF IsRef(arg) THEN
+        \* an index that is itself a container: unhashable ones (list, dict, set) make a mapping
+        \* lookup fail with TypeError, hashable ones (tuple, frozenset, objects) are simply absent;
+        \* sequences, strings and everything else reject any non-integer index with TypeError
+        (IF IsRef(cur) /\ heap[cur.a].cls \in {"dict", "odict", "baddict"}
+         THEN (IF heap[arg.a].cls \in {"list", "dict", "odict", "set"} THEN R(heap, Exc("TypeError"))
+               ELSE IF HasKey(heap[cur.a].items, arg) THEN R(heap, OutOfModel) ELSE R(heap, Exc("KeyError")))
+         ELSE R(heap, Exc("TypeError")))
+     ELSE IF IsRef(cur) /\ heap[cur.a].cls = "baddict"
      THEN (IF arg = VStr("b") THEN R(heap, Exc("RuntimeError"))
            ELSE IF HasKey(heap[cur.a].items, arg) THEN R(heap, Ok(Lookup(heap[cur.a].items, arg))) ELSE R(heap, Exc("KeyError")))
      ELSE IF cur.k = "str" /\ cur.s \notin DOMAIN StrChars /\ arg.k = "int" THEN R(heap, OutOfModel)   \* string not in the table
